@@ -514,6 +514,25 @@ def r2(ctx):
                     if s_.kind == "setitem" and s_.path == "self.far_to_near_map" and \
                             argmap.get(ap(s_.target.slice)) == ap(dst) and argmap.get(ap(s_.value)) == sp:
                         learn_nodes.extend(cfg_nodes(fcfg, hc))
+            # what is learnt as a far address must not be a near (SOCKS client side) endpoint: not the sender itself,
+            # not an address already known as near - else the direction inference flips for that endpoint for good
+            learn_sites = [s_.node for s_ in stores(fn.node) if s_.kind == "setitem" and s_.path == "self.far_to_near_map"
+                           and ap(s_.target.slice) == ap(dst) and ap(s_.value) == sp]
+            learn_sites += [hc for hc in calls(fn.node, into_defs=False)
+                            if any(n in learn_nodes for n in cfg_nodes(fcfg, hc)) and not any(hc is x for x in learn_sites)
+                            and call_attr(hc) not in (None,) and isinstance(hc.func, ast.Attribute) and ap(hc.func.value) == "self"]
+            for ls in learn_sites:
+                not_self = equal_fact(ls, {ap(dst), sp}, fn.node, ap) is False
+                not_near = any(isinstance(e, ast.Compare) and len(e.ops) == 1 and ap(e.left) == ap(dst) and
+                               ((isinstance(e.ops[0], ast.In) and not pol) or (isinstance(e.ops[0], ast.NotIn) and pol))
+                               and (norm(e.comparators[0]).startswith("self.far_to_near_map.values(") or
+                                    "near" in (ap(e.comparators[0]) or ""))
+                               for e, pol in facts(ls, fn.node))
+                ctx.ob("C06.R2", "datagram_received[OUT]: the address learnt as far is known not to be a near endpoint",
+                       not_self and not_near, ctx.w(fn, ls),
+                       f"`{norm(ls)}` is reached without knowing that {ap(dst)} is neither the sender ({'known' if not_self else 'unknown'}) "
+                       f"nor an address already learnt as near ({'known' if not_near else 'unknown'}): one discarded datagram "
+                       f"addressed to the viewer's own endpoint makes every later datagram of the viewer look inbound")
             cn = cfg_nodes(fcfg, c)
             before = fcfg.reachable([fcfg.entry], avoid=lambda n: n in learn_nodes)
             after = fcfg.reachable(cn, avoid=lambda n: n in learn_nodes)
@@ -1277,6 +1296,27 @@ def r4(ctx):
             extra.append(("" if pol else "not ") + norm(e))
         ctx.ob("C06.R4", f"{key} happens on the whole no-addon path", not extra, ctx.w(fn, ic),
                f"forwarding additionally depends on {extra}: some valid datagrams are not delivered")
+    # a PacketAck is refused (not forwarded) only when blocks were removed from it: one that arrived without any
+    # Packets entry is a valid message and is passed on like every other
+    from .c05 import tracker_roles as _roles, is_const_sub as _ics
+    pm_ = repo.fn("ProxiedCircuit.prepare_message")
+    for f_ in _roles(ctx, pm_):
+        if f_ == pm_ or not any(st_.kind == "setitem" and _ics(st_.target, "ID") for st_ in stores(f_.node)):
+            continue
+        m_ = msg_param(f_)
+        for r_ in [x for x in walk(f_.node) if isinstance(x, ast.Return) and isinstance(x.value, ast.Constant) and x.value.value is False]:
+            def mentions_original(e):
+                parts = [e]
+                for n_ in ast.walk(e):
+                    if isinstance(n_, ast.Name):
+                        v_ = single_assign(f_.node, n_.id)
+                        if v_ is not None:
+                            parts.append(v_)
+                return any(_ics(x, "Packets") and ap(x.value) == m_ for p_ in parts for x in ast.walk(p_))
+            had = any(pol and mentions_original(e) for e, pol in facts(r_, f_.node))
+            ctx.ob("C06.R4", f"{f_.qual}: the PacketAck is refused only when it had blocks to begin with", had, ctx.w(f_, r_),
+                   f"`{norm(r_)}` does not depend on {m_}[\"Packets\"] having been non-empty: a PacketAck that arrives with "
+                   f"zero Packets entries is swallowed in both directions instead of being forwarded")
     # failures of side work must not lose the datagram: a try in front of the forward whose purpose is to
     # contain such a failure keeps a catch-all handler that does not re-raise
     from ..core import handler_catches_all, handler_reraises
